@@ -84,6 +84,13 @@ def run_kernel(chk, tier, jobs, props):
         chk.add_run('infer_pattern on a constructor pattern: %d fields (labels from {none,a,b}, unlabelled first), %d sub-patterns (positional first, then labelled)' % (mm, kk), res, complete,
                     {'fields': mm, 'sub_patterns': kk}, nontrivial_classes=lambda c: c.startswith('bound') or c.startswith('ill-formed'))
         found += [v for v in res.violations if any(w.startswith(tuple(props)) for w in v['why'])]
+    from . import opk, syn
+    syn.load('dev', log=chk.log, need_oracle=False)
+    res, complete = explore.explore(opk.factory, (), jobs=1)
+    chk.add_run('BinaryOp::op_details (per-token closure) on a token of symbolic kind: the typing class of the BinaryOpKind it maps to vs the class Gleam gives the operator spelled by that token', res, complete,
+                {'token_kinds': len(syn.KINDS)}, nontrivial_classes=lambda c: c.startswith('op:'))
+    found += [v for v in res.violations if any(w.startswith(tuple(props)) for w in v['why'])]
+    syn.W.cleanup()
     from . import termk
     for t in termk.QUICK + (termk.THOROUGH if tier != 'quick' else []):
         res, complete = explore.explore(termk.factory, (t,), jobs=jobs if t in ('binary-chain', 'nested-block', 'call-param', 'lambda-case') else 1)
@@ -141,6 +148,14 @@ def main(tier, seed):
             if key in seen:
                 continue
             seen.add(key)
+            if v.get('cex', {}).get('operator'):
+                from . import opk
+                w = opk.native_witness(oracle, v['cex']['operator'])
+                if w:
+                    chk.violation('operator-token:' + v['cex']['operator'], 'bounded', '%s; public API: %s' % (v['why'][0][:500], w[:500]), v['cex'], confirmed=True)
+                else:
+                    chk.inconclusive.append('operator kernel: %s - but hover on %r shows the types Gleam assigns' % (v['why'][0][:300], v['cex'].get('program')))
+                continue
             if v.get('cex', {}).get('template'):
                 # a term-kernel finding carries its slot assignment: render it, hover on the function and on every binder
                 from . import termk
@@ -194,6 +209,7 @@ def main(tier, seed):
         'dependency-order kernel: dependency_order_query on its real MIR with the database havoc\'d and one function body of <= 2 (thorough 3) identifier expressions: every non-self edge must come from resolve_name on a resolver built by resolver_for_expr for that very expression; the SCC computation (petgraph) is not executed',
         'reference for label reordering: labelled parameters are paired by label in any order, the remaining ones by position; parameter mismatches do not fail the unification, the return type does (as the code documents)',
         'term kernel: InferCtx::infer_function (real MIR of infer_stmts / infer_expr / infer_pattern, the unifier and the union-find) on %d body templates built as arena data (let / use / case / lambda / pipe / call / tuple / list / spread, patterns: tuple, list + spread, as, string prefix, alternatives); symbolic: each literal\'s kind, each binary operator (None or any BinaryOpKind), tuple indices; per path the solver enumerates every slot assignment the path condition admits and an independent Hindley-Milner checker written from Gleam\'s rules gives the principal types of parameters, binders and result, compared modulo renaming of unknowns; ill-typed assignments must only return and leave every pattern / queried expression with a type entry. Stubs: resolver_for_expr / Resolver::resolve_name answer by unique binder name (scoping is the C05 kernel), resolve_type / resolve_module find nothing, the database is opaque' % len(termk.QUICK + (termk.THOROUGH if tier != 'quick' else [])),
+        'operator kernel: syntax::ast::BinaryOp::op_details (closure, real MIR) on a token whose kind is one symbolic SyntaxKind over all kinds: the BinaryOpKind it yields must belong to the typing class Gleam gives that operator spelling (spellings from the #[token] attributes of kind.rs); `!=`, `&&`, `||` may stay unmapped',
         'native layer (executed, not a solver verdict): every slot assignment of every template rendered as Gleam text; hover on the function name and on every binder through ide::Analysis must show the reference types modulo renaming (this runs the parser, lowering, scopes and display as well)',
         'kernel findings are reported only if a public-API corpus of typed programs (hover) shows a wrong type or a crash as well']
     chk.trusted += ['rustc MIR', 'mirsym interpreter + models (Vec, Option, itertools::find_position, HashMap as association list, Arc transparent)', 'z3', 'Kani 0.68 / CBMC 6.11 (union-find)']
